@@ -62,6 +62,27 @@ def shrink_case(P, case, still_fails, max_rounds=60):
             break
     return cur
 
+WEDGED = ('the implementation did not return within the per-case deadline on this input '
+          '(wedged: loops without consuming input or blocks for ever)')
+
+def _marked(obs, marker):
+    """the marker itself, or a per-profile list [debug, release, ..] one of whose entries is the marker"""
+    return obs == marker or (isinstance(obs, list) and any(x == marker for x in obs))
+
+def canon(P, case, obs):
+    if _marked(obs, rustrun.HANG): return rustrun.HANG
+    if _marked(obs, rustrun.SKIPPED): return rustrun.SKIPPED
+    return P.canon(case, obs)
+
+def judge(P, case, obs):
+    """The property's Spec oracle, preceded by the observation every harness shares:
+    [-2] = the harness watchdog ended the process on this case (lib/vp/rustrun.py)."""
+    if _marked(obs, rustrun.HANG):
+        return WEDGED
+    if _marked(obs, rustrun.SKIPPED):
+        return None
+    return P.oracle(case, obs)
+
 def run(pid, tier, seed, replay=None):
     t0 = time.time()
     mod = importlib.import_module('gen.' + pid.lower())
@@ -144,7 +165,7 @@ def run(pid, tier, seed, replay=None):
     t3 = time.time()
     if impl_obs is not None and model_obs is not None:
         for k, (c, a, b) in enumerate(zip(cases, impl_obs, model_obs)):
-            ca, cb = P.canon(c, a), P.canon(c, b)
+            ca, cb = canon(P, c, a), canon(P, c, b)
             if ca != cb:
                 mismatches.append(k)
         if mismatches:
@@ -159,11 +180,11 @@ def run(pid, tier, seed, replay=None):
     spec_fail = []
     if impl_obs is not None:
         for k, (c, a) in enumerate(zip(cases, impl_obs)):
-            why = P.oracle(c, a)
+            why = judge(P, c, a)
             if why:
                 kid = None
                 for kf in known:
-                    if P.in_known_class(kf, c, a, why):
+                    if why is not WEDGED and P.in_known_class(kf, c, a, why):
                         kid = kf['id']
                         break
                 if kid:
@@ -174,6 +195,10 @@ def run(pid, tier, seed, replay=None):
     dist = {}
     if impl_obs is not None:
         for c, a in zip(cases, impl_obs):
+            if _marked(a, rustrun.HANG) or _marked(a, rustrun.SKIPPED):
+                tag = 'impl_wedged' if _marked(a, rustrun.HANG) else 'impl_not_run'
+                dist[tag] = dist.get(tag, 0) + 1
+                continue
             key = P.nontrivial_key(c, a)
             if key is not None:
                 nontrivial.add(key)
@@ -201,14 +226,14 @@ def run(pid, tier, seed, replay=None):
                 return [False] * len(cs)
             out = []
             for c1, o1 in zip(cs, obs):
-                w1 = P.oracle(c1, o1)
-                out.append(bool(w1) and not any(P.in_known_class(kf, c1, o1, w1) for kf in known))
+                w1 = judge(P, c1, o1)
+                out.append(bool(w1) and (w1 is WEDGED or not any(P.in_known_class(kf, c1, o1, w1) for kf in known)))
             return out
         small = shrink_case(P, cases[k], fails_spec) if not replay else cases[k]
         why_small = why
         if small is not cases[k]:
             o1, _ = P.run_impl([small], tier)
-            why_small = (P.oracle(small, o1[0]) if o1 else None) or why
+            why_small = (judge(P, small, o1[0]) if o1 else None) or why
         rp = write_replay(pid, {'property': pid, 'kind': 'spec-violation-on-implementation', 'why': why_small,
                                 'case': P.case_to_json(small), 'unshrunk_case': P.case_to_json(cases[k]),
                                 'replay_cmd': 'bin/check %s --replay <this file>' % pid}, 'violation')
@@ -234,7 +259,7 @@ def run(pid, tier, seed, replay=None):
                 b, _ = P.run_model(cs, tier)
                 if a is None or b is None:
                     return [False] * len(cs)
-                return [P.canon(c1, x) != P.canon(c1, y) for c1, x, y in zip(cs, a, b)]
+                return [canon(P, c1, x) != canon(P, c1, y) for c1, x, y in zip(cs, a, b)]
             small = shrink_case(P, cases[k], disagrees, max_rounds=25) if not replay else cases[k]
             a, _ = P.run_impl([small], tier)
             b, _ = P.run_model([small], tier)
